@@ -312,7 +312,11 @@ def r6_restore_path(repo: Repo, rep):
             for fi in hooks:
                 seen += 1
                 rep.saw(fi)
-                params = fi.params[1:]
+                params = set(fi.params[1:])
+                for _ in range(3):  # names bound to (parts of) the checkpoint: `sd = checkpoint["state_dict"]`, `a, b = checkpoint[..], set()`
+                    for n in ast.walk(fi.node):
+                        if isinstance(n, ast.Assign) and any(isinstance(x, ast.Name) and x.id in params for x in ast.walk(n.value)):
+                            params |= {x.id for t in n.targets for x in ast.walk(t) if isinstance(x, ast.Name) and isinstance(x.ctx, ast.Store)}
                 bad = []
                 for n in ast.walk(fi.node):
                     if isinstance(n, ast.Call) and isinstance(n.func, ast.Attribute) and n.func.attr in ("pop", "popitem", "clear") and isinstance(n.func.value, ast.Name) and n.func.value.id in params:
@@ -333,6 +337,12 @@ def r6_restore_path(repo: Repo, rep):
                         if i >= 0 and isinstance(a.defaults[i], ast.Constant) and a.defaults[i].value is True:
                             bad.append("assign defaults to True")
                 rep.check(R, not bad, fi.site(), fi.fq, "the restore protocol is passed through unchanged", str(sorted(set(bad))[:3]), str(sorted(set(bad))[:3]))
+    # strict loading stays on: a module that switches it off turns every key missing from a checkpoint into a silently re-initialised weight
+    for fi in repo.all_functions():
+        for n in ast.walk(fi.node):
+            if isinstance(n, ast.Assign) and any(isinstance(t, ast.Attribute) and t.attr == "strict_loading" for t in n.targets) and not (isinstance(n.value, ast.Constant) and n.value.value is True):
+                rep.saw(fi)
+                rep.violation(R, fi.site(n), fi.fq, "strict loading of checkpoints is left on", dump(n)[:60], dump(n)[:60])
     if seen == 0:
         rep.undecided(R, "src/torchphysics", "package", "classes of the solver / condition modules", "none found")
 
